@@ -460,8 +460,8 @@ func rewritingFilter(p string, st *types.Stat) bool {
 		st.Uid = 4242
 	}
 	st.Gid = st.Gid/2 + 7
-	if os.FileMode(st.Mode)&os.ModeSymlink == 0 {
-		st.Mode &^= 0o002 // (a symlink's mode cannot be changed)
-	}
+	// also for symlinks, whose permission bits the destination cannot hold:
+	// they must not make the link look changed on every later sync
+	st.Mode &^= 0o002
 	return true
 }
